@@ -26,7 +26,12 @@ func (c caseT) source() string {
 		return "representableConst(" + c.Value + ", " + c.Type + ")"
 	case "prog":
 		d, _ := c.decl()
+		if c.Form != "" {
+			d += "  [" + c.Form + "]"
+		}
 		return d
+	case "cplx":
+		return "var c0 = " + c.Type + "(" + c.Expr.src() + ")"
 	}
 	return ""
 }
@@ -35,7 +40,7 @@ func implOfLocal(c caseT) outcome {
 	switch c.Kind {
 	case "repr":
 		return implRepr(c)
-	case "prog":
+	case "prog", "cplx":
 		return implProg(c)
 	}
 	return "bad-case"
@@ -47,6 +52,8 @@ func refOf(c caseT) outcome {
 		return refRepr(c)
 	case "prog":
 		return refProg(c)
+	case "cplx":
+		return refCplx(c)
 	}
 	return "bad-case"
 }
@@ -584,6 +591,11 @@ func declType(r *rand.Rand, cls string) string {
 func generate(run *common.Run) []caseT {
 	cases := genRepr(run)
 	cases = append(cases, fixedProgCases()...)
+	if run.Thorough() {
+		cases = append(cases, froundCases(run.Rng, 6000)...)
+	} else {
+		cases = append(cases, froundCases(run.Rng, 400)...)
+	}
 	n := 3000
 	if run.Thorough() {
 		n = 120000
